@@ -50,7 +50,15 @@ func (fr *frame) get(key ssa.Value) Value {
 	case *ssa.Builtin:
 		return key
 	case *ssa.Const:
-		return fr.w.constValue(key)
+		if v, ok := fr.w.constCache[key]; ok {
+			return v
+		}
+		v := fr.w.constValue(key)
+		switch v.(type) {
+		case *Term, StrV, ComplexV:
+			fr.w.constCache[key] = v
+		}
+		return v
 	case *ssa.Global:
 		return Ptr{Slot: fr.w.global(key)}
 	}
